@@ -63,6 +63,7 @@ type Proxy struct {
 	target string
 	mx     sync.Mutex
 	cut    bool
+	hole   bool // swallow traffic silently (connections stay open, nothing is forwarded)
 	delay  time.Duration
 	conns  map[net.Conn]bool
 }
@@ -323,7 +324,11 @@ func (p *Proxy) serve() {
 				if n > 0 {
 					p.mx.Lock()
 					d := p.delay
+					hole := p.hole
 					p.mx.Unlock()
+					if hole {
+						continue
+					}
 					if d > 0 {
 						time.Sleep(d)
 					}
@@ -362,6 +367,14 @@ func (p *Proxy) Cut() {
 func (p *Proxy) Restore() {
 	p.mx.Lock()
 	p.cut = false
+	p.hole = false
+	p.mx.Unlock()
+}
+
+// Blackhole keeps the connections open but silently swallows everything sent over them.
+func (p *Proxy) Blackhole() {
+	p.mx.Lock()
+	p.hole = true
 	p.mx.Unlock()
 }
 
